@@ -12,17 +12,30 @@ obs:  ok [pre=… suf=… [fmt=…]] | err | skip |
 import GoZero.Base.Trace
 import GoZero.C11.Model
 import GoZero.C11.Containers
+import GoZero.C11.SqlParse
 namespace GoZero.C11
 
 open GoZero
 
-/-- what `parseInsertStmt` makes of the statements of the harness (prefix, suffix, value format); `none` = error -/
-def sqlxStmtTable : List (Option (String × String × String)) :=
-  [some ("insert into t(a) values", "", "(?)"),
-   some ("INSERT INTO t(a) VALUES", "ON DUPLICATE KEY UPDATE a=VALUES(a)", "(?)"),
-   some ("insert ignore into t values", "", "(?)"),
-   some ("insert into t(a) values", "on duplicate key update a = a + 1, b = 2", "(?)"),
-   none, none, none]
+/-- the statements of the harness (the same strings as `c11sStmts` in the Go harness) -/
+def sqlxStmts : List String :=
+  ["insert into t(a) values (?)",
+   "INSERT INTO t(a) VALUES (?) ON DUPLICATE KEY UPDATE a=VALUES(a)",
+   "insert ignore into t values(?)",
+   "insert into t(a) values (?)   on duplicate key update a = a + 1, b = 2  ",
+   "insert into t(a) values",
+   "select 1",
+   "insert into t(a, b) values (?)",
+   "insert into myvalues(a) values (?)",
+   "INSERT INTO t ( a ) VALUES(?)",
+   "insert into t(a) values (?) on duplicate key update a=values(a)",
+   "values (?)",
+   "insert into t(a,,b) values (?)",
+   "insert\tinto t(a)\nvalues\t(?)\n ON DUPLICATE KEY UPDATE a = 1 \t\n"]
+
+/-- what `parseInsertStmt` makes of statement #i: the Lean model of the parser (SqlParse.lean) applied to the string;
+(prefix, suffix, value format), `none` = error -/
+def sqlxParsed (i : Nat) : Option (String × String × String) := (sqlxStmts[i]?).bind parseInsert
 
 structure SqlInst where
   live    : Bool := false
@@ -54,7 +67,7 @@ def SqlxSt.get (s : SqlxSt) (k : Nat) : SqlInst := ((s.insts.find? fun p => p.1 
 def SqlxSt.set (s : SqlxSt) (k : Nat) (i : SqlInst) : SqlxSt :=
   { s with insts := (s.insts.filter fun p => p.1 != k) ++ [(k, i)] }
 
-def us (s : String) : String := if s = "" then "-" else s.replace " " "_"
+def us (s : String) : String := if s = "" then "-" else ((s.replace " " "_").replace "\t" "~").replace "\n" "^"
 
 def sqlHash (s : String) : Nat := s.foldl (fun h c => (h * 31 + c.toNat) % 4294967296) 7
 
@@ -142,7 +155,7 @@ def sqlxLine (max : Int) (hook : Bool) (sec : Nat) (acc : Report × SqlxSt) (l :
     if op = "new" then
       let some si := arg | return bad
       if i.live ∧ (i.gate ∨ i.helper.isSome) then return skip "new-while-gated"
-      match (sqlxStmtTable.getD si none) with
+      match (sqlxParsed si) with
       | none =>
         r := r.addCover "sqlx-statement-rejected"
         if impl ≠ "err" then r := r.mismatch sec l.idx "err" impl
@@ -233,7 +246,7 @@ def sqlxLine (max : Int) (hook : Bool) (sec : Nat) (acc : Report × SqlxSt) (l :
     | "stmt" =>
       let some si := arg | return bad
       let i1 := i.flush
-      match (sqlxStmtTable.getD si none) with
+      match (sqlxParsed si) with
       | none =>
         if impl ≠ "err" then r := r.mismatch sec l.idx "err" impl
         return (r.addCover "sqlx-UpdateStmt-rejected", s.set k i1)
